@@ -606,6 +606,18 @@ func (sdb *DbSqlite) edgePoints(nodeID, parentID string, points data.Points) err
 	if len(edges) <= 0 {
 		newEdge = true
 		edge.ID = uuid.New().String()
+
+		// the graph must stay acyclic, so a node can't be placed under
+		// itself or one of its descendants
+		cyclic, err := sdb.isUpstream(tx, nodeID, parentID)
+		if err != nil {
+			rollback()
+			return err
+		}
+		if cyclic {
+			rollback()
+			return fmt.Errorf("Error: edge %v -> %v would create a cycle", parentID, nodeID)
+		}
 	} else {
 		edge = edges[0]
 	}
@@ -810,6 +822,44 @@ NextPin:
 	}
 
 	return nil
+}
+
+// isUpstream returns true if upID is id, or can be reached from id by
+// walking up through edges (deleted or not)
+func (sdb *DbSqlite) isUpstream(tx *sql.Tx, upID, id string) (bool, error) {
+	if id == upID {
+		return true, nil
+	}
+
+	rows, err := tx.Query("SELECT up FROM edges WHERE down=?", id)
+	if err != nil {
+		return false, err
+	}
+	defer rows.Close()
+
+	var ups []string
+
+	for rows.Next() {
+		var up string
+		err = rows.Scan(&up)
+		if err != nil {
+			return false, err
+		}
+		ups = append(ups, up)
+	}
+
+	if err := rows.Close(); err != nil {
+		return false, err
+	}
+
+	for _, up := range ups {
+		found, err := sdb.isUpstream(tx, upID, up)
+		if err != nil || found {
+			return found, err
+		}
+	}
+
+	return false, nil
 }
 
 func (sdb *DbSqlite) updateHash(tx *sql.Tx, id string, hashUpdate uint32) error {
